@@ -16,7 +16,7 @@ ASSUMPTIONS = [
     'labels: strings for labelled types (keys with repeated labels included), small ints for Matrix types',
 ]
 OUTSIDE = ['histories longer than the bound', 'edits outside the menu (e.g. direct dict.__setitem__ bypass, pop/del)', 'float rounding']
-BOUNDS = {'quick': {'history_length': 2, 'types': 'all 10', 'menu': 'see MENU in vq/props/c14.py', 'start': 'the empty model, and for four first edits a non-empty base model'},
+BOUNDS = {'quick': {'history_length': 2, 'types': 'all 10', 'menu': 'see MENU in vq/props/c14.py', 'start': 'the empty model, and for one (quick) or two (thorough) first edits a non-empty base model'},
           'thorough': {'history_length': 3, 'types': 'all 10'}}
 
 LABELLED = ['QUBO', 'PUBO', 'PCBO', 'QUSO', 'PUSO', 'PCSO']
@@ -197,7 +197,7 @@ def jobs(tier, seed):
             J.append(dict(name='%s/first=%02d/len=%d' % (tn, first, length), sig=tn, module='vq.props.c14', make='make_history',
                           args=dict(tn=tn, first=first, length=length), budget_s=300 if tier == 'quick' else 2400, max_cex=40))
         names = [x[0] for x in menu(tn, T, [0, 0, 0, 0], ('a', 'b', 'c', 'd'))]
-        for fn in (['big-=v1'] if tier == 'quick' else ['big-=v1', 'set big=v1', 'M-=dict{a:v0}', 'update{b:v2}']):
+        for fn in (['big-=v1'] if tier == 'quick' else ['big-=v1', 'set big=v1']):
             J.append(dict(name='%s/base/first=%s/len=%d' % (tn, fn, length), sig=tn + '/base', module='vq.props.c14', make='make_history',
                           args=dict(tn=tn, first=names.index(fn), length=length, base=True), budget_s=300 if tier == 'quick' else 2400, max_cex=40))
     return J
